@@ -371,29 +371,27 @@ func (c *nodeComparer) Walk(from, to *value) {
 		}
 
 	case reflect.Slice:
-		results := make([][]diff.Result, from.Len())
-		known := make([][]bool, from.Len())
-		for i := range results {
-			results[i] = make([]diff.Result, to.Len())
-			known[i] = make([]bool, to.Len())
-		}
-
 		// Difference may ask about the same pair more than once (it searches
 		// from both ends). Compare every pair once only: otherwise the cost
-		// doubles with every level of nesting.
+		// doubles with every level of nesting. It asks about few of the
+		// len(from)*len(to) pairs, so remember the answers in a map: a table
+		// for all pairs takes gigabytes for a function of 20000 statements.
+		type pair struct{ i, j int }
+		results := make(map[pair]diff.Result)
 		es := diff.Difference(from.Len(), to.Len(), func(i, j int) diff.Result {
-			if !known[i][j] {
-				results[i][j] = compareNodes(from.Children[i], to.Children[j])
-				known[i][j] = true
+			r, ok := results[pair{i, j}]
+			if !ok {
+				r = compareNodes(from.Children[i], to.Children[j])
+				results[pair{i, j}] = r
 			}
-			return results[i][j]
+			return r
 		})
 
 		var i, j int
 		for _, e := range es {
 			switch e {
 			case diff.Identity, diff.Modified:
-				result := results[i][j]
+				result := results[pair{i, j}]
 				c.NumDiff += result.NumDiff
 				c.NumSame += result.NumSame
 				i++
